@@ -26,6 +26,8 @@ func hostileName(r *Run, w *World, users []string) string {
 		"sub/" + victim, ".tmp/" + victim, "../decoy", "../../../etc/whawty/store0", "/etc/passwd",
 		strings.Repeat("n", 256), strings.Repeat("n", 5000), victim + ".user", victim + ".admin", victim + "\x00", victim + " ",
 		"../sibling/" + victim + "\x00", victim + ".admin/../" + victim,
+		// letters that case-folding maps onto ASCII (Kelvin sign, long s), full-width and other look-alikes
+		"\u212aevin", "\u017fam", "a\u212a", "bo\u017f", "\uff41lice", "\u0430lice", "alice\u0300", "\u00c5ke", "K\u0131m",
 	}
 	return pool[r.Choose("hostile", len(pool))]
 }
@@ -165,7 +167,7 @@ func propC03(r *Run) {
 					delete(w.model, u)
 				}
 			}
-			bad := []string{"-evil", ".dot", "_x", "@y", "sp ace", "ü"}[r.Choose("badfile", 6)]
+			bad := []string{"-evil", ".dot", "_x", "@y", "sp ace", "ü", "\u212aevin", "\u017fam", "a\u212a"}[r.Choose("badfile", 9)]
 			w.fs.Put(w.base()+"/"+bad+".admin", []byte(RefWrite(def, "evil", make([]byte, def.SaltLen()), 1000)+"\n"), 0o600)
 			w.arm()
 			lst, _ := d.List()
